@@ -14,7 +14,7 @@ import json
 import os
 
 from . import common, explore, srv, srv_alpha, srv_check, tlc
-from . import cli, cli_alpha, simple, threads, adisc, pubsub
+from . import cli, cli_alpha, simple, threads, adisc, pubsub, admin
 from .tla_lit import lit
 
 BASE_INV = ['TypeOK']
@@ -136,6 +136,16 @@ PLAN.update({
         'thorough': ['ps_listener_junk_quick', 'ps_listener_cb_quick',
                      'ps_listener_fault_quick'],
     },
+    'C18g': {
+        'fam': 'admin',
+        'inv': ['C18_GatedRequestsDoNothing',
+                'C18_UngatedRequestIsTheServerCall'],
+        'quick': ['adm_gate_dev_rw', 'adm_gate_dev_ro', 'adm_gate_pro_rw',
+                  'adm_transp_acks_quick_dev_adm',
+                  'adm_transp_lifecycle_quick_ac_pro_adm',
+                  'adm_transp_events_quick_dev_noadm'],
+        'thorough': [k for k in admin.CONFIGS],
+    },
     'C09': {
         'fam': 'client',
         'inv': ['C09_EventDispatch', 'C09_IssuedIdUnique', 'C09_AckOutcome',
@@ -198,6 +208,9 @@ def _pubsub_consts(cfg):
 
 
 FAMILIES = {
+    'admin': dict(spec='Admin', graph='AdminGraph', configs=admin.CONFIGS,
+                  alpha=admin, consts=admin.consts, next='ANext',
+                  adapter=lambda c: admin.AdminSrvAdapter(c)),
     'pubsub': dict(spec='PubSub', graph='PubSubGraph',
                    configs=pubsub.CONFIGS, alpha=pubsub,
                    consts=_pubsub_consts,
@@ -275,7 +288,8 @@ def _tlc_g1(fam, wd, cfg, alphabet, invariants, workers, view=False,
     mod, cfgc = mc_module(fam, tag, fam['spec'], cfg, alphabet)
     if view:
         mod = mod.replace('====', 'CoreView == st\n====')
-    cfgt = ('VIEW CoreView\n' if view else '') + 'INIT Init\nNEXT Next\n' + \
+    cfgt = ('VIEW CoreView\n' if view else '') + \
+        'INIT Init\nNEXT %s\n' % fam.get('next', 'Next') + \
         cfgc + ''.join('INVARIANT %s\n' % i for i in invariants)
     return tlc.run_tlc(os.path.join(wd, tag), tag, cfgt, modules={tag: mod},
                        workers=workers)
